@@ -223,6 +223,7 @@ impl<'a> YamlEmitter<'a> {
                 if self.multiline_strings
                     && v.contains('\n')
                     && char_traits::is_valid_literal_block_scalar(v)
+                    && is_literal_block_safe(v, self.level < 0)
                 {
                     self.emit_literal_block(v)?;
                 } else if need_quotes(v) {
@@ -394,6 +395,27 @@ impl<'a> YamlEmitter<'a> {
             }
         }
     }
+}
+
+/// Check if the string is read back unchanged when written by [`YamlEmitter::emit_literal_block`].
+///
+/// That function uses an auto-detected indentation and clip (`|`) or strip (`|-`) chomping, which
+/// cannot express every string. The others are emitted as quoted scalars.
+fn is_literal_block_safe(string: &str, top_level: bool) -> bool {
+    // The indentation is detected on the first non-empty line, which hence must not start with a
+    // blank. There must be such a line.
+    let detectable_indent = string
+        .split('\n')
+        .find(|line| !line.is_empty())
+        .is_some_and(|line| !line.starts_with([' ', '\t']));
+    // Clipping keeps a single trailing line break.
+    let chompable = !string.ends_with("\n\n");
+    // Not indented, a document marker would end the scalar (and the document).
+    let no_marker = !top_level
+        || !string
+            .split('\n')
+            .any(|line| line.starts_with("---") || line.starts_with("..."));
+    detectable_indent && chompable && no_marker
 }
 
 /// Check if the string requires quoting.
